@@ -14,9 +14,17 @@
   backend is modelled by `selectHeralds` applied BEFORE the detectors; `post_select_distribution`
   (heralds part) by `selectHeralds` applied AFTER them, on the readings.  The final `normalize()`
   (a positive scale), the removal of the heralded modes (`keep_heralds=False`) and the PostSelect
-  expression are applied by the harness on the driver's output.
+  expression are applied by the harness on the driver's output (op `tail`).
+
+  Second part (op `probs`): the WHOLE tail inside the model — `probsSvd` = `probs_svd` for one Fock input of a
+  perfect source, from the theoretical distribution to `{'results', 'physical_perf', 'logical_perf'}`:
+  early return on incompatible heralds, `_logical_perf` accumulated by `_probs_svd_fast` (the mass the mask
+  keeps), `res.normalize()`, `simulate_detectors`, `post_select_distribution` (`postSelect`: heralds and the
+  PostSelect expression read on the READINGS, `result[state] = prob` as an assignment, removal of the
+  heralded modes, `logical_perf -= prob`, final `normalize()`).
 -/
 import PercevalModel.Model.C08
+import PercevalModel.Found.SimSpec
 
 namespace PM.C08
 
@@ -46,5 +54,71 @@ def probsTail (mask : Bool) (minP : K) (base : Dist (List ℕ) K) (ds : List (An
 def probsTailCoded (minP : K) (base : Dist (List ℕ) K) (ds : List (AnyDet K))
     (minPhotons : Option ℕ) (h : List (ℕ × ℕ)) : Acc K :=
   probsTail (useMask h ds) minP base ds minPhotons h
+
+/-! ### `post_select_distribution` and the whole tail -/
+
+open PM.SimSpec (PS)
+
+/-- `postselect.has_condition` (`PS.tt` = `PostSelect()` without condition) -/
+def psHasCond : PS → Bool
+  | .tt => false
+  | _ => true
+
+/-- `state.remove_modes(modes)`: the state without the listed modes (`i` = number of the head mode) -/
+def dropFrom (modes : List ℕ) : ℕ → List ℕ → List ℕ
+  | _, [] => []
+  | i, x :: r => if modes.contains i then dropFrom modes (i + 1) r else x :: dropFrom modes (i + 1) r
+
+/-- the state `post_select_distribution` files an accepted state under -/
+def reportState (h : List (ℕ × ℕ)) (keep : Bool) (t : List ℕ) : List ℕ :=
+  if keep then t else dropFrom (h.map (·.1)) 0 t
+
+/-- `d[key] = p` on a dict: an existing key is overwritten in place, a new one appended -/
+def setKey {σ : Type} [DecidableEq σ] : Dist σ K → σ → K → Dist σ K
+  | [], key, p => [(key, p)]
+  | (k, v) :: rest, key, p => if k = key then (k, p) :: rest else (k, v) :: setKey rest key p
+
+/-- `heralds_ok and postselect(state)` -/
+def accepted (ps : PS) (h : List (ℕ × ℕ)) (t : List ℕ) : Bool := heraldsOk h t && ps.eval t
+
+/-- the loop of `post_select_distribution`: `(result, logical_perf)` before the final `normalize()` -/
+def postSelectLoop (ps : PS) (h : List (ℕ × ℕ)) (keep : Bool) (d : Dist (List ℕ) K)
+    (a : Dist (List ℕ) K × K) : Dist (List ℕ) K × K :=
+  d.foldl (fun a e =>
+    if accepted ps h e.1 then (setKey a.1 (reportState h keep e.1) e.2, a.2) else (a.1, a.2 - e.2)) a
+
+/-- `post_select_distribution(bsd, postselect, heralds, keep_heralds)`: `(result, logical_perf)` -/
+def postSelect (ps : PS) (h : List (ℕ × ℕ)) (keep : Bool) (d : Dist (List ℕ) K) :
+    Dist (List ℕ) K × K :=
+  if !(psHasCond ps || !h.isEmpty) then (normalize d, 1)
+  else
+    let r := postSelectLoop ps h keep d ([], 1)
+    (normalize r.1, r.2)
+
+/-- `{'results', 'physical_perf', 'logical_perf'}` -/
+structure ProbsOut (K : Type) where
+  results : Dist (List ℕ) K
+  phys : K
+  logical : K
+
+/-- `Simulator.probs_svd(SVDistribution(one Fock state), detectors)` with a perfect source, given the theoretical
+(mask-free) distribution `base` of the backend for that input: `_preprocess_svd` yields `physical_perf = 1`;
+`_probs_svd_fast` leaves `_logical_perf` = the mass the backend returned (all of it, or what the heralds mask
+keeps) and normalises; `if detectors:` (an empty list skips `simulate_detectors`, which is the identity on it
+anyway); then `post_select_distribution`. -/
+def probsSvd (minP : K) (base : Dist (List ℕ) K) (ds : List (AnyDet K)) (minPhotons : Option ℕ)
+    (h : List (ℕ × ℕ)) (ps : PS) (keep : Bool) : Except String (ProbsOut K) :=
+  match checkHeralds h ds with
+  | .error e => .error e
+  | .ok false => .ok ⟨[], 1, 0⟩
+  | .ok true =>
+    let raw := if useMask h ds then selectHeralds h base else base
+    let lp0 := mass raw
+    let res := normalize raw
+    if res.isEmpty then .ok ⟨res, 1, 0⟩
+    else
+      let a := simulate minP res ds minPhotons
+      let b := postSelect ps h keep a.1
+      .ok ⟨b.1, 1 * a.2, lp0 * b.2⟩
 
 end PM.C08
